@@ -155,7 +155,8 @@ pub fn eval(expr: Node) -> Result<Decimal, Box<dyn error::Error>> {
                         .unwrap_or_default(),
                 )
                 .to_i32()
-                .unwrap_or(4);
+                .unwrap_or(4)
+                .min(128);
             let mut w = Decimal::ZERO;
             for _ in 0..iterations {
                 #[cfg(feature = "verif_hooks")]
@@ -187,6 +188,9 @@ pub fn eval(expr: Node) -> Result<Decimal, Box<dyn error::Error>> {
             while n > Decimal::new(1, 0) {
                 #[cfg(feature = "verif_hooks")]
                 crate::verif_hooks::tick();
+                if x >= Decimal::new(64, 0) {
+                    return Err("The iterated logarithm does not converge".into());
+                }
                 x += Decimal::new(1, 0);
                 n = chk(n
                     .checked_log10()
